@@ -5,7 +5,7 @@ import z3
 
 from . import ops, seqs
 from .ops import Arith, truth, b_and, b_or, b_not, equal, merge, ite
-from .values import (EngineError, NONE, ListV, SeqV, OptV, ObjV, MapV, SetV, RangeV, ExcV, StrV, LitSet,
+from .values import (EngineError, NONE, ListV, SeqV, OptV, ObjV, MapV, SetV, RangeV, ExcV, StrV, LitSet, TSmallSet,
                      TInt, TBool, TReal, TTuple, TSeq, TOpt, is_z3, is_scalar, is_bv, is_real,
                      to_int_term, to_bool_term, to_real_term, fresh, fresh_name, key_term, key_sort,
                      shape_leaves, flatten_value, build_from_leaves, shape_of, range_facts)
@@ -177,6 +177,10 @@ def _bi_len(E, args, kwargs, st, node):
     v = args[0]
     if isinstance(v, ConstDictT()):
         return [(st, len(v.entries))]
+    if isinstance(v, LitSet) and v.conds is not None:
+        if any(is_z3(x) for x in v.items):
+            raise EngineError("len of a conditional set with symbolic members")
+        return [(st, sum([z3.If(to_bool_term(c), 1, 0) for c in v.conds]) if v.conds else 0)]
     if isinstance(v, LitSet):
         items = v.items
         if all(not is_z3(x) for x in items):
@@ -303,7 +307,7 @@ def _bi_tuple(E, args, kwargs, st, node):
     items = E.static_items(args[0])
     if items is None:
         if isinstance(args[0], SeqV):
-            return [(st, SeqV(args[0].length, args[0].elem, args[0].arrs, "tuple"))]
+            return [(st, args[0].retag("tuple"))]
         raise EngineError("tuple() of a sequence of symbolic length")
     return [(st, tuple(items))]
 
@@ -313,7 +317,7 @@ def _bi_list(E, args, kwargs, st, node):
         return [(st, ListV([]))]
     v = args[0]
     if isinstance(v, SeqV):
-        return [(st, SeqV(v.length, v.elem, v.arrs, "list"))]
+        return [(st, v.retag("list"))]
     items = E.static_items(v)
     if items is None:
         raise EngineError("list() of %r" % type(v).__name__)
@@ -486,7 +490,7 @@ def _bi_bytes(E, args, kwargs, st, node):
         return [(st, SeqV(0, TInt(0, 255), [z3.K(z3.IntSort(), z3.IntVal(0))], "bytes"))]
     v = args[0]
     if isinstance(v, SeqV):
-        return [(st, SeqV(v.length, v.elem, v.arrs, "bytes"))]
+        return [(st, v.retag("bytes"))]
     if isinstance(v, (ListV, tuple)):
         return [(st, seqs.to_seq(v, TInt(0, 255), "bytes"))]
     if is_scalar(v):
@@ -528,6 +532,28 @@ def _bi_getattr(E, args, kwargs, st, node):
 
 
 def _bi_next(E, args, kwargs, st, node):
+    from .engine import Raised
+    a0 = args[0]
+    if isinstance(a0, LitSet) and a0.conds is not None:
+        # an arbitrary present member (set iteration order is unspecified)
+        nonempty = b_or(*a0.conds) if a0.conds else False
+        out = []
+        for s, _ in E.partial(st, node, 'StopIteration', nonempty, None):
+            if isinstance(_, Raised):
+                out.append((s, _))
+                continue
+            has_none = any(x is NONE for x in a0.items)
+            v = z3.Int(fresh_name("member"))
+            isn = z3.Bool(fresh_name("member.isnone")) if has_none else None
+            alts = []
+            for c, x in zip(a0.conds, a0.items):
+                if x is NONE:
+                    alts.append(z3.And(to_bool_term(c), isn))
+                else:
+                    alts.append(z3.And(to_bool_term(c), v == x, z3.Not(isn)) if has_none else z3.And(to_bool_term(c), v == x))
+            s2 = s.assume(z3.Or(*alts))
+            out.append((s2, OptV(isn, v) if has_none else v))
+        return out
     items = E.static_items(args[0])
     if items is None:
         if isinstance(args[0], SeqV):
